@@ -37,6 +37,14 @@ def bearer_cases(rng, tier):
         for rq in REQS:
             for st in ("live", "revoked"):
                 out.append({"kind": "bearer", "header": "Bearer {t}", "state": st, "tscope": ts, "required": rq, "via": "flask"})
+    # the view decorators of the Flask and Django integrations: the view body runs (and sees the token) only when the request is served
+    for via in ("flask-view", "django-view"):
+        for h in HEADERS:
+            if h is not None and ("\n" in h or "\r" in h):
+                continue              # no HTTP server hands a header value with a line break to the framework
+            for st in STATES:
+                for ts, rq in (("a b", None), ("a b", "a"), ("a", "a b"), ("a b", ["a", "c"]), ("", ["z"]), ("b", "  a  ")):
+                    out.append({"kind": "bearer", "header": h, "state": st, "tscope": ts, "required": rq, "via": via})
     return out
 
 
@@ -64,8 +72,8 @@ def jwt_cases(rng, tier):
 def cases(rng, tier):
     b = bearer_cases(rng, tier)
     if tier != "thorough":
-        fl = [x for x in b if x.get("via") == "flask"]
-        b = rng.sample([x for x in b if x.get("via") != "flask"], 2800) + fl
+        fl = [x for x in b if x.get("via")]
+        b = rng.sample([x for x in b if not x.get("via")], 2800) + fl
     return b + jwt_cases(rng, tier)
 
 
@@ -89,6 +97,58 @@ def run_protector(rp, scopes, headers, **kw):
         return {"decision": e.error, "status": st, "www": "WWW-Authenticate" in hdrs}, None
     except Exception as e:
         return {"raised": type(e).__name__, "msg": str(e)[:80]}, None
+
+
+def run_view(via, store, required, headers):
+    """a view guarded by the integration's decorator; `ran` records whether the view body executed and which token it saw"""
+    import json as _json
+    ran = {}
+    try:
+        if via == "flask-view":
+            import flask
+            from authlib.integrations.flask_oauth2 import ResourceProtector as FlaskRP, current_token
+            frp = FlaskRP()
+            frp.register_token_validator(ms.MemBearerValidator(store))
+            app = flask.Flask("c10-view")
+            app.config["PROPAGATE_EXCEPTIONS"] = True
+
+            @app.route("/r")
+            @frp(required)
+            def view():
+                ran["token"] = current_token.access_token if current_token else None
+                return "ok"
+            resp = app.test_client().get("/r", headers=headers)
+            status, text, www = resp.status_code, resp.get_data(as_text=True), "WWW-Authenticate" in resp.headers
+        else:
+            from django.conf import settings
+            if not settings.configured:
+                settings.configure(DEBUG=False, SECRET_KEY="x", ALLOWED_HOSTS=["*"])
+            import django
+            django.setup()
+            from django.http import HttpResponse
+            from django.test import RequestFactory
+            from authlib.integrations.django_oauth2 import ResourceProtector as DjangoRP
+            drp = DjangoRP()
+            drp.register_token_validator(ms.MemBearerValidator(store))
+
+            @drp(required)
+            def view(request):
+                ran["token"] = request.oauth_token.access_token if request.oauth_token else None
+                return HttpResponse("ok")
+            resp = view(RequestFactory().get("/r", **{"HTTP_" + k.upper().replace("-", "_"): v for k, v in headers.items()}))
+            status, text, www = resp.status_code, resp.content.decode(), "WWW-Authenticate" in resp
+    except Exception as e:
+        return {"raised": type(e).__name__, "msg": str(e)[:80]}
+    if "token" in ran:
+        out = {"decision": "served", "status": status}
+        if ran["token"] is not None:
+            out["current"] = ran["token"]
+        return out
+    try:
+        err = _json.loads(text).get("error")
+    except Exception:
+        err = None
+    return {"decision": err, "status": status, "www": www}
 
 
 def impl(c):
@@ -119,6 +179,8 @@ def impl(c):
                     return {"decision": e.error, "status": e.status_code, "www": "WWW-Authenticate" in dict(e.get_headers())}
                 except Exception as e:
                     return {"raised": type(e).__name__, "msg": str(e)[:80]}
+        if c.get("via") in ("flask-view", "django-view"):
+            return run_view(c["via"], store, c["required"], headers)
         out, tok = run_protector(rp, norm_req(c["required"]), headers)
         if tok is not None:
             out["current"] = tok.access_token
